@@ -159,6 +159,15 @@ def build(spec, upto=None, image=True):
     """Realise a spec through the public API. `upto` builds only the first `upto` optical surfaces."""
     from optiland.optic import Optic
     o = Optic()
+    if spec.get('reuse_after') is not None:
+        # history: the Optic object held another complete lens (and was traced) before reset(); then this lens is built on it
+        o = build(spec['reuse_after'])
+        try:
+            o.trace(0.0, 1.0, 0.5876, 3, 'hexapolar')
+            o.paraxial.f2()
+        except Exception:
+            pass
+        o.reset()
     if spec.get('obj_mat') is not None:
         o.add_surface(index=0, thickness=spec['obj'], material=make_material(spec['obj_mat']))
     else:
